@@ -297,6 +297,7 @@ let handle_paths words =
     let argv = ExecSingle.exec_argv (execdir = "1") (bytes_of_hex exe) (bl tmpls) (bytes_of_hex path) in
     let cwd = match ExecSingle.exec_cwd (execdir = "1") (bytes_of_hex path) with None -> "none" | Some c -> hex_of_bytes c in
     hexlist argv ^ " " ^ cwd
+  | ["sort"; names] -> hexlist (Stdlib.List.map fst (SortOrder.sort_names (Stdlib.List.map (fun n -> (n, ())) (bl names))))
   | ["name_subject"; p] -> hex_of_bytes (Paths.name_subject (bytes_of_hex p))
   | ["parent"; p] -> (match PathModel.parent (bytes_of_hex p) with None -> "none" | Some x -> hex_of_bytes x)
   | ["file_name"; p] -> (match PathModel.file_name (bytes_of_hex p) with None -> "none" | Some x -> hex_of_bytes x)
